@@ -227,7 +227,7 @@ static void run(long i, vh_rng *r)
     d = vd_decoder(&cfg);
     if (!d) { vh_inconc("decoder_init failed"); return; }
     decoder_set_cmn(d, "40,3,-1");
-    beam_mode = vh_chance(r, 0.7) ? 2 : vh_chance(r, 0.5) ? 0 : 1;
+    beam_mode = vh_chance(r, 0.62) ? 2 : vh_chance(r, 0.5) ? 0 : 1;
     vd_search_random(r, &sp, beam_mode);
     vd_search_apply(d, &sp);
     vd_gram_random(r, lang, vh_chance(r, 0.5) ? VG_FSG_TEXT : -1, 0.5, &g);
@@ -247,7 +247,7 @@ static void run(long i, vh_rng *r)
     if (res.nseg) ef_last = res.seg[res.nseg - 1].ef;
     /* frame scores of this utterance, re-computed */
     T = d->acmod->output_frame; nsen = bin_mdef_n_sen(d->acmod->mdef);
-    if (T <= 0) { if (hyp || have_score) vh_viol("result_without_frames", "a result (score %d) is reported although no frame was searched", score); vh_count("utterances_without_frames", 1); goto out; }
+    if (T <= 0) { if (nw > 0) vh_viol("result_without_frames", "a result with %d words (score %d) is reported although no frame was searched", nw, score); vh_count("utterances_without_frames", 1); goto out; }
     vh_ctx("harness_rescoring");
     if (acmod_rewind(d->acmod) < 0) { vh_inconc("acmod_rewind failed"); goto out; }
     sen = (int16 *)malloc(sizeof(int16) * (size_t)T * (size_t)nsen);
@@ -273,7 +273,8 @@ static void run(long i, vh_rng *r)
             vh_count("exact_optimum_matches", 1);
             if (ef_last != T - 1) vh_viol("segmentation_does_not_reach_last_frame", "the optimum is reported but the segmentation ends at frame %d of %d", ef_last, T);
         }
-    } else if (have_score) {
+    } else if (have_score && nw == 0) vh_count("empty_sentence_reported_by_pruned_search", 1);   /* no words: no alignment is claimed */
+    else if (have_score) {
         int32 bound = (ef_last >= 0 && ef_last < T) ? full.opt_final[ef_last] : NEG;
         if (score > bound) vh_viol("score_above_optimum_with_pruning", "%s beams: reported score %d for a path ending at frame %d; the best legal alignment ending there scores %d", beam_mode ? "narrow" : "default", score, ef_last, bound);
         else { vh_count("pruned_scores_not_above_optimum", 1); if (score == bound) vh_count("pruned_scores_equal_to_optimum", 1); }
